@@ -540,6 +540,10 @@ def run(ctx):
             stats['value_cases_evaluated'] += 1
             if c['m']:
                 seen.add(json.dumps(['v', c['s'], sorted(c['m'].items())]))
+    import c13_callers
+    cfails, cstats = c13_callers.run(rng, ctx.scale(600, 9000))
+    out.failures.extend(cfails)
+    stats['caller_cases'] = cstats
     bad, errs = common.run_bool_cases(FAMILY, REQUIRES, cases, tag=PID, shard=300)
     out.corr_errors = errs
     for i in bad[:20]:
@@ -589,6 +593,9 @@ def replay(path):
         fails = oracle(c, run_impl(c))
     elif r.get('kind') == 'value':
         fails, _ = value_oracle(r['case'])
+    elif r.get('kind') == 'caller':
+        import c13_callers
+        fails = c13_callers.replay_case(r['case'])
     else:
         print('replay names a proof/correspondence obligation, nothing to execute:', json.dumps(obj)[:500])
         return 1
